@@ -214,6 +214,76 @@ func refreshScenario(s *kit.Summary, table *dnsTable, tag string) {
 	}
 }
 
+// refreshIdleScenario: a host that sees no dial for several refresh intervals while its DNS
+// answer changes: the next connection must go to the NEW answer (the entry was dropped as
+// unused and is looked up again). All waits are lower bounds.
+func refreshIdleScenario(s *kit.Summary, table *dnsTable, tag string) {
+	const ttl = 25 * time.Millisecond
+	host := "idle-" + tag + ".c18.test"
+	oldIPs := []string{"10.4.0.1", "2001:db8:44::1"}
+	newIPs := []string{"10.4.0.9", "2001:db8:44::9"}
+	table.set(host, oldIPs)
+	questions := func() int {
+		table.mu.Lock()
+		defer table.mu.Unlock()
+		return table.queries[strings.ToLower(host)+"."]
+	}
+	rec := newRecorder()
+	atk := vegeta.NewAttacker(vegeta.VerifBaseDial(rec.dial), vegeta.DNSCaching(ttl))
+	defer atk.Stop()
+	dial := atk.VerifDialContext()
+	s.Count("refresh:idle_host")
+	s.Case("refresh_idle:"+tag, true)
+	var id int64
+	one := func() []string {
+		id++
+		ctx := context.WithValue(context.Background(), dialIDKey{}, id)
+		dial(ctx, "tcp", host+":80")
+		rec.mu.Lock()
+		defer rec.mu.Unlock()
+		l := append([]string(nil), rec.byDial[id]...)
+		sort.Strings(l)
+		return l
+	}
+	want := func(set []string) string {
+		var l []string
+		for _, ip := range set {
+			l = append(l, net.JoinHostPort(ip, "80"))
+		}
+		sort.Strings(l)
+		return fmt.Sprint(l)
+	}
+	bad := func(what string, got []string) {
+		s.Violate(kit.Violation{Kind: "dns_refresh", What: what,
+			Input:    map[string]interface{}{"scenario": "refresh_idle", "ttl_ms": 25, "old": oldIPs, "new": newIPs, "idle_intervals": 20},
+			Expected: want(newIPs), Observed: fmt.Sprint(got), Key: map[string]interface{}{"scenario": "refresh_idle"}})
+	}
+	if got := one(); fmt.Sprint(got) != want(oldIPs) {
+		bad("the first dial did not go to the resolved addresses", got)
+		return
+	}
+	// wait until the periodic refresh has re-resolved the entry once (it was used): from then on
+	// it counts as unused
+	q0 := questions()
+	deadline := time.Now().Add(10 * time.Second)
+	for questions() == q0 && time.Now().Before(deadline) {
+		time.Sleep(ttl / 5)
+	}
+	if questions() == q0 {
+		s.Skipped["idle_refresh_not_observed"]++ // judged by the other refresh scenario
+		return
+	}
+	time.Sleep(2 * ttl) // let that refresh finish storing the (old) answer
+	table.set(host, newIPs)
+	time.Sleep(20 * ttl) // idle: no dial for many refresh intervals
+	for i := 0; i < 3; i++ {
+		if got := one(); fmt.Sprint(got) != want(newIPs) {
+			bad(fmt.Sprintf("after %d idle refresh intervals connection #%d went to addresses that left the DNS long ago", 20, i+1), got)
+			return
+		}
+	}
+}
+
 // e2eDial: the real command. -resolvers points the child at the in-process DNS server; the
 // targets' host names resolve to several loopback addresses; -keepalive=false makes every hit
 // dial; listeners record which local address each connection arrived at.
